@@ -246,7 +246,18 @@ def gen_case(seeds, params, index):
         # the lazy sequence reaches the expression inside the input data
         # (a value of a dictionary, a member of a list) instead of a variable
         case['data_shape'] = w.choice(DATA_SHAPES)
+    elif 'iter' in acc and w.random() < 0.25:
+        # the lazy sequence is handed over one level down: as a member of
+        # the list / a value of the dictionary that is the argument (a
+        # function that descends into its argument meets it there)
+        case['arg_nest'] = w.choice(ARG_NESTS)
+        case['stream'] = f.choice([['endless'], ['endless_empties'],
+                                   ['endless_empties'], ['finite', N + 1]])
+        case['call'] = synth.synth_call(w, flavour, (ei, slot), ['var', 's'])
     return case
+
+
+ARG_NESTS = ['list', 'listlist', 'list2', 'dictvalues', 'listlast']
 
 
 # how a host function may declare a parameter that takes a lazy sequence with
@@ -600,6 +611,27 @@ def _data_around(s, shape):
     raise core.HarnessError(shape)
 
 
+def _nest_arg(spec, nest):
+    """the call with its `$s` argument one level down"""
+    v = ['var', 's']
+    lst = lambda *a: ['list', list(a)]       # noqa: E731
+    repl = {
+        'list': lst(v),
+        'listlist': lst(lst(v)),
+        'list2': lst(['lit', 1], v),
+        'listlast': lst(['lit', 1], ['lit', 2], lst(v)),
+        'dictvalues': ['call', {
+            'name': 'values', 'method': True, 'kwargs': {},
+            'args': [['call', {'name': '#map', 'method': False, 'kwargs': {},
+                               'args': [['rule', 'a', v]]}]]}],
+    }[nest]
+    out = dict(spec)
+    out['args'] = [repl if x == v else x for x in spec['args']]
+    out['kwargs'] = {k: (repl if x == v else x)
+                     for k, x in spec.get('kwargs', {}).items()}
+    return out
+
+
 def _via_data(spec, shape):
     """the call with every `$s` replaced by the path into the data"""
     def a(x):
@@ -632,6 +664,8 @@ def exec_limit(case, stats):
     shape_d = case.get('data_shape')
     if shape_d:
         call = _via_data(call, shape_d)
+    if case.get('arg_nest'):
+        call = _nest_arg(call, case['arg_nest'])
     spec = wrap_spec(case['wrap'], call)
     try:
         st = synth.build_statement(flavour, spec, opts)
@@ -748,6 +782,8 @@ def exec_limit(case, stats):
     stats.inc('fault.stream_' + sk)
     if shape_d:
         stats.inc('fault.stream_inside_data_' + shape_d)
+    if case.get('arg_nest'):
+        stats.inc('fault.stream_nested_in_argument_' + case['arg_nest'])
     if case.get('host_decl'):
         stats.inc('host_decl.' + case['host_decl'])
     if any(p == N + 1 for _, p in pulls):
